@@ -70,7 +70,11 @@ def gen_cases(rng, tier):
         elif r < 0.35: yield {'op': 'order', 'a': (t := rand_tuple(rng, False)), 'b': [rng.choice([x, x, rng.randint(0, 999)]) for x in t]}
         elif r < 0.55: yield {'op': 'to_int_str', 's': rand_verstr(rng)}
         elif r < 0.65: yield {'op': 'to_str', 'n': rng.choice([0, 1, 999, 1000, 1001, 10**6, 10**9 - 1, rng.randint(0, 10**15), rng.randint(0, 10**40)])}
-        elif r < 0.8: yield {'op': 'compat', 'req': pep_ver(rng), 'cur': pep_ver(rng), 'sm': rng.random() < 0.5}
+        elif r < 0.8:
+            req = pep_ver(rng)
+            q = rng.random()
+            cur = req if q < 0.15 else (req + '.0' if q < 0.25 and req[-1].isdigit() and '+' not in req and 'v' not in req and not any(ch.isalpha() for ch in req) else pep_ver(rng))
+            yield {'op': 'compat', 'req': req, 'cur': cur, 'sm': rng.random() < 0.5}
         else: yield {'op': 'pred', 'p': rand_pred(rng), 'v': pep_ver(rng)}
     yield {'op': 'roundtrip', 'v': []}
 
